@@ -16,7 +16,7 @@
 From Coq Require Import List NArith Bool.
 From SK Require Import lib.Tok lib.LGraph lib.Mono lib.Reach model.C07_Model model.C07_MCCS
   proof.C07_Spec proof.C07_History proof.C07_Filters proof.C07_Main proof.C07_WL proof.C07_Relabel proof.C07_Final proof.C07_Extra proof.C07_Final2
-  proof.C07_Entry proof.C07_MCCS proof.C07_Sym.
+  proof.C07_Entry proof.C07_MCCS proof.C07_Sym proof.C07_Cache.
 Import ListNotations.
 
 (** the premises are satisfiable, and the instances the correspondence run evaluates ([run] = [run_from has_mono (monos_g true)])
@@ -368,6 +368,42 @@ Theorem C07_helpers_relabel_invariant :
 Proof. exact helpers_relabel. Qed.
 Print Assumptions C07_helpers_relabel_invariant.
 
+(** the two engine entry points agree: on graphs with equally many nodes isomorphic(g_i, g_j) holds exactly when
+    get_mappings(g_i, g_j) returns something (max_mappings <> 0), whatever the cache states *)
+Theorem C07_iso_maps_consistent :
+  forall vf2b enum, vf2b_contract vf2b -> enum_contract enum ->
+  forall gs e i j c c', cache_inv gs c -> cache_inv gs c' -> gwf (gnth gs i) -> gwf (gnth gs j) ->
+    n_nodes (gnth gs i) = n_nodes (gnth gs j) -> e_mm e <> Some 0%N ->
+    (fst (isomorphic vf2b e i (gnth gs i) j (gnth gs j) c) = true <->
+     fst (get_mappings vf2b enum e i (gnth gs i) j (gnth gs j) c') <> []).
+Proof. exact iso_maps_consistent. Qed.
+Print Assumptions C07_iso_maps_consistent.
+
+(** isomorphic is a preorder on graphs for every engine and all cache states: reflexive, and transitive (with C07_symmetric: an
+    equivalence on graphs whose hydrogen counts are equal or absent) *)
+Theorem C07_iso_preorder :
+  forall vf2b, vf2b_contract vf2b ->
+  forall gs e,
+  (forall i c, cache_inv gs c -> gwf (gnth gs i) -> fst (isomorphic vf2b e i (gnth gs i) i (gnth gs i) c) = true) /\
+  (forall i j k c1 c2 c3, cache_inv gs c1 -> cache_inv gs c2 -> cache_inv gs c3 -> gwf (gnth gs i) -> gwf (gnth gs j) -> gwf (gnth gs k) ->
+     fst (isomorphic vf2b e i (gnth gs i) j (gnth gs j) c1) = true -> fst (isomorphic vf2b e j (gnth gs j) k (gnth gs k) c2) = true ->
+     fst (isomorphic vf2b e i (gnth gs i) k (gnth gs k) c3) = true).
+Proof. exact iso_preorder. Qed.
+Print Assumptions C07_iso_preorder.
+
+(** (6, the state itself) the class-level cache as the correspondence observes it after EVERY query ([cache_trace]): a query never
+    removes a key and adds only keys whose attribute selection is the node_attrs of a FILTERING engine of the case; hence after any
+    history from the empty cache every key belongs to a filtering engine, and the observed key sets form an increasing chain (any VF2) *)
+Theorem C07_cache_keys :
+  forall vf2b enum gs es,
+  (forall q c, incl (keys c) (keys (snd (step vf2b enum gs es q c))) /\
+               (forall k, In k (keys (snd (step vf2b enum gs es q c))) -> In k (keys c) \/ key_of_filtering_engine es k)) /\
+  (forall qs k, In k (keys (end_cache vf2b enum gs es qs [])) -> key_of_filtering_engine es k) /\
+  (forall qs c n k1 k2, nth_error (cache_trace vf2b enum gs es qs c) n = Some k1 ->
+                        nth_error (cache_trace vf2b enum gs es qs c) (S n) = Some k2 -> incl k1 k2).
+Proof. exact cache_keys_all. Qed.
+Print Assumptions C07_cache_keys.
+
 (** ---------------------------------------------------------------- round 5: the common-subgraph helpers of graph_morphism.py
     (outside the clauses of the property text; modelled, compared and proved because they are built from the same matcher calls)
 
@@ -397,6 +433,16 @@ Theorem C07_mccs :
      contained true nm em large (induced_sub small S') -> length S' <= n_nodes r).
 Proof. exact mccs_spec. Qed.
 Print Assumptions C07_mccs.
+
+(** the SIZE of the result does not depend on the argument order (the matchers of the code are equalities, hence symmetric); for
+    graphs of different orders the two calls return the same graph, for equal orders the node ids come from the first argument *)
+Theorem C07_mccs_size_symmetric :
+  forall vf2b, vf2b_contract vf2b ->
+  forall names defaults eattr done g1 g2, gwf g1 -> gwf g2 ->
+    n_nodes (mccs vf2b names defaults eattr done g1 g2) = n_nodes (mccs vf2b names defaults eattr done g2 g1) /\
+    (n_nodes g1 <> n_nodes g2 -> mccs vf2b names defaults eattr done g1 g2 = mccs vf2b names defaults eattr done g2 g1).
+Proof. exact mccs_size_symmetric. Qed.
+Print Assumptions C07_mccs_size_symmetric.
 
 (** the boolean connectivity test the model evaluates (nx.is_connected on a non-empty candidate) is connectedness *)
 Theorem C07_connected_test :
